@@ -31,6 +31,7 @@ class Ob:
     group: str = ''
     bound: str = ''                 # human-readable bound of this obligation
     finding: Optional[str] = None   # known-finding id this instance is restricted to
+    args: Optional[str] = None      # argument expressions passed to the harness function (default: the params)
 
     def spec(self, scratch: str) -> Dict[str, Any]:
         d = dataclasses.asdict(self)
@@ -137,6 +138,8 @@ def reproduced(ob: Ob, rp: Dict[str, Any]) -> bool:
         want_true = (ob.post.strip() == '_')
         return rp['value'] != want_true
     if rp.get('outcome') == 'exception':
+        if rp.get('exc') == 'OracleDisagreement':
+            return False      # reference model and real oracle disagree: not a finding
         return not rp.get('allowed', False)
     return False
 
